@@ -5,6 +5,9 @@ package props
 import (
 	"fmt"
 
+	"math/big"
+
+	"github.com/bytemare/secp256k1"
 	"github.com/bytemare/secp256k1/zz_verif/gen"
 	"github.com/bytemare/secp256k1/zz_verif/mon"
 	"github.com/bytemare/secp256k1/zz_verif/oracle"
@@ -17,6 +20,8 @@ type c05Case struct {
 	B    mon.ElemCase `json:"b"`
 	Rel  string       `json:"rel"`
 	Same bool         `json:"same_pointer,omitempty"`
+	// Move: operand A is an object that first held Move.From, was compared, and was then driven to Move.To (A is ignored).
+	Move *mon.ElemMove `json:"move,omitempty"`
 }
 
 func init() {
@@ -26,6 +31,9 @@ func init() {
 		Rule: "cases = (P, Q, representation of each): Q in {O,P,-P (same x),2P,-2P,phiP,phi2P (same y),-phiP,-phi2P,unrelated} for every pool point, " +
 			"each operand independently in affine / λ-scaled (structured and random λ) / identity (0:Y:0) forms; identity vs identity in all form pairs; self-comparison through one pointer. " +
 			"Oracle: equality of the affine values held in math/big; both argument orders; results must be exactly 0 or 1; IsIdentity must equal (value == O). " +
+			"" +
+			"Further relation classes: distinct points on a common line of slope ±1, ±2, ±1/2 through P (equal x+y, x-y, ... : what a folded comparison cannot tell apart); both operands scaled by factors whose stored form equals the stored form of 1 in three limbs (what a limb-dropping 'z == 1' fast path confuses with affine). " +
+			"History cases: operand A is an object that held another value, was compared, and was then driven to its value through each mutator of the API. " +
 			"non-trivial = operands in different representations or different values; distinct by the whole case.",
 		NewCase:  func() any { return &c05Case{} },
 		Generate: c05Generate,
@@ -33,7 +41,7 @@ func init() {
 		Require: func(string) map[string]int64 {
 			return map[string]int64{
 				"rel:P": 200, "rel:-P": 200, "rel:phiP": 200, "rel:phi2P": 200, "rel:O": 200, "rel:unrelated": 200,
-				"equal-expected": 200, "unequal-expected": 1000, "O-vs-O": 100, "same-pointer": 20, "scaled-vs-scaled-equal": 100,
+				"equal-expected": 200, "unequal-expected": 1000, "O-vs-O": 100, "same-pointer": 20, "scaled-vs-scaled-equal": 100, "rel:same-line": 100, "one-adjacent-pair": 200, "history-cases": 400,
 			}
 		},
 	})
@@ -69,6 +77,64 @@ func c05Generate(c *mon.Ctx) {
 		for _, rp := range ra {
 			a := mon.MkElemCase(pv, rp)
 			c.Structured(func() any { return &c05Case{A: a, B: a, Rel: "P", Same: true} })
+		}
+	}
+
+	// points on a common line through P
+	slopes := []*big.Int{big.NewInt(1), oracle.FNeg(big.NewInt(1)), big.NewInt(2), oracle.FNeg(big.NewInt(2)), oracle.FInv0(big.NewInt(2)), oracle.FNeg(oracle.FInv0(big.NewInt(2)))}
+
+	for i := 0; i < c.N(300, 3000); i++ {
+		pv := gen.Fresh(sr)
+		for _, m := range slopes {
+			if q, ok := gen.SameLine(pv.P, m); ok {
+				ra, rb := gen.DrawRepr(sr, false), gen.DrawRepr(sr, false)
+				if i%3 == 0 {
+					ra, rb = gen.Repr{Kind: "affine", L: big.NewInt(1)}, gen.Repr{Kind: "affine", L: big.NewInt(1)}
+				}
+
+				a, b := mon.MkElemCase(pv, ra), mon.MkElemCase(gen.PV{P: q, Tag: "same-line"}, rb)
+				c.Structured(func() any { return &c05Case{A: a, B: b, Rel: "same-line"} })
+			}
+		}
+	}
+
+	// both operands with z adjacent to the stored form of 1
+	oa := gen.OneAdjacentLambdas()
+
+	for i, pv := range pool.NonInf {
+		for j := 0; j < 6; j++ {
+			l1, l2 := oa[(i+j)%len(oa)], oa[(i*7+j*3+1)%len(oa)]
+			r1, r2 := gen.Repr{Kind: "scaled", L: l1}, gen.Repr{Kind: "scaled", L: l2}
+			a := mon.MkElemCase(pv, r1)
+			b := mon.MkElemCase(pv, r2)
+			nb := mon.MkElemCase(gen.PV{P: oracle.Neg(pv.P), Tag: "-P"}, r2)
+			aff := mon.MkElemCase(pv, gen.Repr{Kind: "affine", L: big.NewInt(1)})
+			c.Structured(func() any { return &c05Case{A: a, B: b, Rel: "P", Same: false} })
+			c.Structured(func() any { return &c05Case{A: a, B: nb, Rel: "-P"} })
+			c.Structured(func() any { return &c05Case{A: a, B: aff, Rel: "P"} })
+			c.Structured(func() any { return &c05Case{A: aff, B: b, Rel: "P"} })
+		}
+	}
+
+	// history cases
+	hr := c.SharedRng("moves")
+
+	for rep := 0; rep < 20; rep++ {
+		for _, via := range mon.ElemVias {
+			mv := mon.PlanElemMove(via, hr)
+			to := gen.PV{P: mv.To.Pt(), Tag: "moved"}
+
+			// compared with the same value materialised directly, and with its negation
+			same := mon.MkElemCase(to, gen.DrawRepr(hr, to.P.IsInf()))
+			neg := mon.MkElemCase(gen.PV{P: oracle.Neg(to.P), Tag: "-P"}, gen.DrawRepr(hr, to.P.IsInf()))
+
+			if rep%2 == 0 && !to.P.IsInf() {
+				// the other operand straight out of the decoder
+				same = mon.MkNatElemCase(to, 4)
+				neg = mon.MkNatElemCase(gen.PV{P: oracle.Neg(to.P), Tag: "-P"}, 4)
+			}
+			c.Structured(func() any { return &c05Case{B: same, Rel: "P", Move: &mv} })
+			c.Structured(func() any { return &c05Case{B: neg, Rel: "-P", Move: &mv} })
 		}
 	}
 
@@ -124,8 +190,35 @@ func c05Generate(c *mon.Ctx) {
 
 func c05Run(c *mon.Ctx, csAny any) {
 	cs := csAny.(*c05Case)
+	if cs.Move != nil {
+		cs.A = mon.ElemCase{P: cs.Move.To, R: mon.ReprCase{Kind: "moved:" + cs.Move.Via, L: "1"}}
+	}
+
 	pa, pb := cs.A.P.Pt(), cs.B.P.Pt()
-	a := cs.A.Build()
+
+	var a *secp256k1.Element
+
+	if cs.Move != nil {
+		c.Count("history-cases")
+
+		a = cs.Move.From.Build()
+		// compare the old value (fills whatever the comparison memoises), then move
+		ref := cs.B.Build()
+		_, _, _ = a.Equal(ref), ref.Equal(a), a.IsIdentity()
+
+		if pan, pv := mon.Call(func() { mon.ApplyElemMove(a, *cs.Move) }); pan {
+			if m, ok := pv.(string); ok && len(m) > 8 && m[:8] == "harness:" {
+				panic(m)
+			}
+
+			c.Fail(fmt.Sprintf("mutator %s panicked: %v", cs.Move.Via, pv), "equal-history-panic", nil)
+
+			return
+		}
+	} else {
+		a = cs.A.Build()
+	}
+
 	b := a
 
 	if !cs.Same {
@@ -135,6 +228,10 @@ func c05Run(c *mon.Ctx, csAny any) {
 	}
 
 	c.Count("rel:" + cs.Rel)
+
+	if c05OneAdj(cs.A.R) && c05OneAdj(cs.B.R) {
+		c.Count("one-adjacent-pair")
+	}
 
 	want := 0
 	if pa.Equal(pb) {
@@ -179,4 +276,17 @@ func c05Run(c *mon.Ctx, csAny any) {
 			c.Sample(map[string]any{"case": cs, "expected_equal": want, "observed": []int{ab, ba}, "raw_a": mon.Snap(a).String(), "raw_b": mon.Snap(b).String()})
 		}
 	}
+}
+
+var c05OneAdjSet map[string]bool
+
+func c05OneAdj(r mon.ReprCase) bool {
+	if c05OneAdjSet == nil {
+		c05OneAdjSet = map[string]bool{}
+		for _, l := range gen.OneAdjacentLambdas() {
+			c05OneAdjSet[fmt.Sprintf("%x", l)] = true
+		}
+	}
+
+	return r.Kind == "scaled" && c05OneAdjSet[r.L]
 }
